@@ -10,7 +10,7 @@ PROPS = "Props/C06.v"
 COQ_CHECK = ("Model.C06", "check")
 COQ_FALLBACK = ("Model.C06", "spec_ok")
 COQ_IMPORTS = ""
-SHARD = 12
+SHARD = 45
 MARGIN = F(1, 10 ** 9)
 TOL = F(1, 10 ** 9)
 BUF_DEFAULT = F(1e-8)        # exact rational value of the double 1e-8 (overlay_grid's default buffer)
@@ -148,7 +148,7 @@ def gen_rect(rng, mode, maxn):
         ys, xs = [p[0] for p in pts], [p[1] for p in pts]
         if min(ys) == max(ys) or min(xs) == max(xs): return None
     return {"op": "rect", "mode": mode, "m": m, "subs": subs, "grid": [[S(p[0]), S(p[1])] for p in pts],
-            "shape": list(shape), "buffer": S(buf)}
+            "shape": list(shape), "buffer": S(buf), "fsub": rng.random() < 0.3}
 
 def cross(a, b, c): return (b[0] - a[0]) * (c[1] - a[1]) - (b[1] - a[1]) * (c[0] - a[0])
 def incircle(a, b, c, d):
@@ -182,7 +182,7 @@ def gen_del(rng, maxn):
         if rng.random() < 0.3 and pts: V[0] = pts[rng.randrange(len(pts))]          # a data point sitting on a vertex
         if general_position(V):
             return {"op": "del", "m": m, "subs": subs, "grid": [[S(p[0]), S(p[1])] for p in pts],
-                    "points": [[S(p[0]), S(p[1])] for p in V]}
+                    "points": [[S(p[0]), S(p[1])] for p in V], "fsub": rng.random() < 0.3}
     return None
 
 def gen_matrix(rng):
@@ -223,10 +223,15 @@ def gen_inputs(tier, rng):
     for _ in range(300 if big else 40):
         m = rand_mask(rng, 12)
         n = sum(1 for r in m for b in r if not b)
-        yield {"op": "sfs", "m": m, "subs": [rng.choice([1, 2, 3, 4]) for _ in range(n)], "via": rng.choice(["util", "sampler"])}
+        via = rng.choice(["util", "sampler", "sampler_float", "radial_bins"])
+        if via == "radial_bins":
+            yield {"op": "sfs", "m": m, "subs": None, "via": via, "sub_size_list": rng.choice([[4, 2, 1], [3, 1], [2, 4, 1]]),
+                   "radial": rng.choice([["3/4", "7/4", "10"], ["5/4", "10"], ["1/2", "2", "10"]])}
+        else:
+            yield {"op": "sfs", "m": m, "subs": [rng.choice([1, 2, 3, 4]) for _ in range(n)], "via": via}
     for _ in range(2500 if big else 150): yield gen_matrix(rng)
     for _ in range(2500 if big else 150): yield gen_unique(rng)
-    nmap = 900 if big else 45
+    nmap = 500 if big else 45
     maxn = 10 if big else 7
     for i in range(nmap):
         for g in (gen_rect(rng, "exact", maxn), gen_rect(rng, "public", maxn), gen_del(rng, maxn)):
@@ -237,7 +242,8 @@ def build_common(aa, inp):
     m = inp["m"]; subs = inp["subs"]
     grid = [(F(p[0]), F(p[1])) for p in inp["grid"]]
     mask = aa.Mask2D(mask=np.array(m, dtype=bool), pixel_scales=1.0)
-    ss = aa.Array2D(values=[int(s) for s in subs], mask=mask)
+    # "fsub": the sub-size map is stored as floats, which is what OverSamplingUniform.from_radial_bins / from_adaptive_scheme produce
+    ss = aa.Array2D(values=[float(s) if inp.get("fsub") else int(s) for s in subs], mask=mask)
     osr = aa.OverSamplerUniform(mask=mask, sub_size=ss)
     assert osr.sub_total == len(grid) and len(osr.over_sampled_grid) == len(grid)
     src = aa.Grid2DIrregular(values=[[float(p[0]), float(p[1])] for p in grid])
@@ -275,12 +281,23 @@ def run_case(inp):
         from autoarray.operators.over_sampling import over_sample_util
         if inp["via"] == "util":
             r = over_sample_util.slim_index_for_sub_slim_index_via_mask_2d_from(mask_2d=np.array(m, dtype=bool), sub_size=np.array(subs))
+        elif inp["via"] == "radial_bins":
+            # the library's own adaptive constructor (it yields a float-valued sub-size map); which pixel gets which sub-size is
+            # C09's subject: here the map is read back and only the sub-pixel -> pixel index map is checked
+            mask = aa.Mask2D(mask=np.array(m, dtype=bool), pixel_scales=1.0)
+            grid = aa.Grid2D.from_mask(mask=mask)
+            osg = aa.OverSamplingUniform.from_radial_bins(grid=grid, sub_size_list=inp["sub_size_list"],
+                                                          radial_list=[float(F(x)) for x in inp["radial"]])
+            osr = osg.over_sampler_from(mask=mask)
+            subs = [int(x) for x in np.array(osr.sub_size)]
+            r = osr.slim_for_sub_slim
         else:
             mask = aa.Mask2D(mask=np.array(m, dtype=bool), pixel_scales=1.0)
-            r = aa.OverSamplerUniform(mask=mask, sub_size=aa.Array2D(values=subs, mask=mask)).slim_for_sub_slim
+            vals = [float(x) for x in subs] if inp["via"] == "sampler_float" else subs
+            r = aa.OverSamplerUniform(mask=mask, sub_size=aa.Array2D(values=vals, mask=mask)).slim_for_sub_slim
         out = [int(x) for x in r]
         return {"coq": f"(KSlimForSub {cmask(m)} {cnl(subs)} {cnl(out)})", "out": out[:40], "py_ok": None,
-                "nontrivial": len(subs) > 1, "kind": "sfs"}
+                "nontrivial": len(subs) > 1, "kind": "sfs:" + inp["via"]}
     if op == "matrix":
         mp, sz, wt = inp["mp"], inp["sz"], [[F(x) for x in r] for r in inp["wt"]]
         fr = [F(x) for x in inp["fr"]]
@@ -338,7 +355,8 @@ def run_case(inp):
         coq = (f"(KRect {cq(tol)} {cmask(m)} {cnl(subs)} {cpts(grid)} ({cz(shape[0])}, {cz(shape[1])}) {cq(buf)} "
                f"{ctup([cq(x) for x in mesh_o])} {cpsw(psw)} {cqm(M)} {cuq(uq)} {cnb(nb)})")
         used = len({r[0] for r in psw[0]})
-        return {"coq": coq, "out": describe(psw, M), "py_ok": None, "nontrivial": used > 1, "kind": "rect:" + inp["mode"]}
+        return {"coq": coq, "out": describe(psw, M), "py_ok": None, "nontrivial": used > 1,
+                "kind": "rect:" + inp["mode"] + (":float_sub_size" if inp.get("fsub") else "")}
     if op == "del":
         m, subs, grid, mask, osr, src = build_common(aa, inp)
         V = [(F(p[0]), F(p[1])) for p in inp["points"]]
@@ -354,5 +372,6 @@ def run_case(inp):
         coq = (f"(KDel {cq(TOL)} {cmask(m)} {cnl(subs)} {cpts(grid)} {cpts(V)} {czm(simplices)} {czl(simplex_for)} "
                f"{czl([int(x) for x in indptr])} {czl([int(x) for x in indices])} {cpsw(psw)} {cqm(M)} {cuq(uq)} {cnb(nb)})")
         kinds = ("outside" if -1 in simplex_for else "") + ("inside" if any(s >= 0 for s in simplex_for) else "")
-        return {"coq": coq, "out": describe(psw, M), "py_ok": None, "nontrivial": len(grid) > 1, "kind": "del:" + kinds}
+        return {"coq": coq, "out": describe(psw, M), "py_ok": None, "nontrivial": len(grid) > 1,
+                "kind": "del:" + kinds + (":float_sub_size" if inp.get("fsub") else "")}
     raise ValueError(op)
